@@ -34,6 +34,8 @@ def plan(tier, seed):
 
     groups = []
     mats = list(SM.SMALL()) + SM.D3(3) + SM.HNF(4) + SM.NONDIAG12 + [[[2, 1, 0], [0, 2, 0], [1, 0, 1]], [[3, 0, 0], [1, 1, 0], [0, 0, 1]], [[4, 0, 0], [0, 2, 0], [0, 0, 1]], [[2, 2, 0], [0, 2, 0], [0, 0, 5]], [[3, -2, 1], [1, 2, -1], [0, 1, 2]]]
+    # all matrices over {0,1,2} with 0 < det <= 16 (1 900+): reductions with several divisibility steps
+    mats += [m for m in SM.SMALL((0, 1, 2)) if 0 < RL.det3(m) <= 16]
     if tier == "thorough":
         mats += [m for m in SM.SMALL((-1, 0, 1, 2)) if RL.det3(m) > 0][::7]
     for k in range(0, len(mats), 500):
